@@ -59,7 +59,9 @@ claim("C14",
       "with the ones sent (value and hash); bogus type names must be refused there too; on two connections, messages of exactly "
       "one read buffer (a legal action padded with blanks to ProtocolConfig.BUFFER_SIZE bytes is played, text of that length that is "
       "not JSON is refused) must leave the next message of either connection untouched; a table of actions stored (pickled) by "
-      "another interpreter must be found under the actions decoded from their JSON here (equal actions hash equally across interpreters).",
+      "another interpreter must be found under the actions decoded from their JSON here (equal actions hash equally across interpreters). "
+      "C14_type_names_exact (Proofs/TypeNames.v): the decoder accepts a type text only if it is the name of a supported type, bare or "
+      "behind ONE leading 'ActionType.'; a per-run obligation pins the source of ActionType.from_string to that shape (D36).",
       "Trusted: Coq kernel + VM; translator harness/translate/codec.py; Python's json and ipaddress libraries enter as "
       "premises / as the IPv4-only validity function Model/Ipv4Text.v (IPv6 texts and ill-typed field values are outside "
       "the model); hand-written model tied by differential execution.",
